@@ -39,10 +39,12 @@ def register(reg):
 	reg.contract(CM + 'jaccarddist',
 		requires=SORTED,
 		ensures=['result == D(coords1, coords2)'],
+		returns=Float32,
 	)
 	reg.contract(CM + 'jaccard',
 		requires=SORTED,
 		ensures=['result == one_minus(D(coords1, coords2))'],
+		returns=Float32,
 	)
 	# metric.py
 	reg.contract(PM + '_cast_sigs_array',
